@@ -239,7 +239,7 @@ def run(tier, out):
         run_model_check(out, wd, tier)
         ns = efx.load()
         base = seed_from_env() * 100000
-        n_hist, n_edits = (24, 12) if tier == "quick" else (200, 20)
+        n_hist, n_edits = (20, 12) if tier == "quick" else (200, 20)
         events, shapes, actions, raised = record_histories(ns, range(base, base + n_hist), n_edits, out)
         dom_events, _tid, n_topo, n_all, n_dom = replay_model_domain(ns, wd, out, tier, 10 ** 6)
         events += dom_events
